@@ -927,7 +927,7 @@ func runC11(r *Run) {
 	}
 	maskKeys := map[string]bool{}
 	addMask := func(t reflect.Type) {
-		if !maskOK || len(maskKeys) >= r.N(700, 6000) {
+		if !maskOK || len(maskKeys) >= r.N(900, 6000) {
 			return
 		}
 		coq := c11CoqOfRType(t)
@@ -957,7 +957,7 @@ func runC11(r *Run) {
 		targets = append(targets, c11Target{e.Name, e.GT, s})
 	}
 	modes := []string{"after", "during", "file-null", "file-deflate", "file-snappy"}
-	ncases := r.N(330, 6000)
+	ncases := r.N(700, 6000)
 	gcTotals := map[string]int{}
 	for i := 0; i < ncases; i++ {
 		var tg c11Target
